@@ -134,7 +134,7 @@ def base_record(pid, c, lanes, d, poldep, inw):
     return dict(pid=pid, st=st, lanes=lanes, dl=dl, poldep=bool(poldep), inw=inw, waves=[], port=[], s=[], caps=[], pcaps=[], T2=2 * INF,
                 has=dict(c03=False, c04=False, c05=False, c13=False, shift=False, scale=False, big=False, abuf=False),
                 sh=dict(d=0, waves=[], port=[]), sc=dict(f=1, waves=[], port=[]), resp8=[], big=dict(port=[]),
-                actrl=[], abuf=[], raised=False, offgrid=False)
+                actrl=[], abuf=[], raised=False, offgrid=False, strip=False)
 
 
 def rand_inputs(rnd, c, lanes, multi=True, tmax=9):
